@@ -19,3 +19,4 @@ import RenetVerif.Lemmas.SrcEquiv.NcPacket
 import RenetVerif.Lemmas.SrcEquiv.NcAddr
 import RenetVerif.Lemmas.SrcEquiv.NcConnToken
 import RenetVerif.Lemmas.SrcEquiv.Conn
+import RenetVerif.Lemmas.SrcEquiv.ConnSend
